@@ -19,7 +19,7 @@ from ref import jws as rjws, jwe as rjwe, b64 as rb, keys as rk, selftest
 LEVEL = "exploration"
 RULE = ("header = valid base header + exactly one violation drawn from: required parameter missing (alg; enc; on consumption epk / p2s / "
         "p2c / iv / tag), registered parameter (alg, jku, jwk, kid, x5u, x5c, x5t, x5t#S256, typ, cty, crit, enc, zip, epk, apu, apv, p2s, "
-        "p2c, iv, tag, skid, b64) given a value of each other JSON type, crit naming an absent parameter, b64 without crit (RFC 7797), "
+        "p2c, iv, tag, skid, b64) given a value of each other JSON type (for booleans also the numbers 0, 1, 0.0, 1.0), crit naming an absent parameter, b64 without crit (RFC 7797), "
         "unregistered name under strict checking, caller-registered parameter with wrong type / required but missing; or no violation "
         "(caller-registered parameter with right type, unregistered name with strict off) which MUST be accepted; caller re-registration of kid / cty as required. Position: protected, "
         "unprotected, per-recipient (also of the second of two recipients, every-recipient and any-recipient validation); direction: produce (joserfc serializes) and consume (reference-minted valid token); JWS compact / "
